@@ -5,7 +5,7 @@
 
     [gmap s]: the generated [Map] record of the model state [s] ([vals] as the
     association list of pointers, head/last as pointers, the pool handle 0);
-    the heap is [gheap (pool s) (heap_of s)].  [swf s]: no dangling ids.
+    the heap is [gheap lg (pool s) (heap_of s)].  [swf s]: no dangling ids.
     The iterator methods are stated on the walking state ([core]) of the model,
     as [i_hasnext] / [i_itnext] / [i_close] are [i_getvalue] / [i_next] /
     [i_release] on the pointer found in the iterator table. *)
@@ -20,7 +20,7 @@ Open Scope Z_scope.
 
 Definition encv (vs : list (Z * nat)) : gomap := map (fun kv => (fst kv, ptr (snd kv))) vs.
 Definition gmap (s : imap) : Gen.Map := gm (encv (vals s)) (head s) (ptr (last s)).
-Definition sheap (s : imap) : heap := gheap (pool s) (heap_of s).
+Definition sheap (lg : list Z) (s : imap) : heap := gheap lg (pool s) (heap_of s).
 
 Definition vals_in (len : nat) (vs : list (Z * nat)) : Prop := Forall (fun kv => (snd kv < len)%nat) vs.
 Definition swf (s : imap) : Prop :=
@@ -64,11 +64,11 @@ Ltac gmap_cbn :=
 Theorem gen_Len_refines s : Gen.Map_Len (gmap s) = Z.of_nat (i_len s).
 Proof. unfold Gen.Map_Len, i_len. gmap_cbn. apply maplen_encv. Qed.
 
-Theorem gen_NewMap_refines : Gen.NewMap (gheap [] []) = Ok (gmap i_new, sheap i_new).
+Theorem gen_NewMap_refines lg : Gen.NewMap (gheap lg [] []) = Ok (gmap i_new, sheap lg i_new).
 Proof. unfold Gen.NewMap. gmap_cbn. im_run0. reflexivity. Qed.
 
-Theorem gen_Get_refines s k : swf s ->
-  Gen.Map_Get (gmap s) k (sheap s) = lift (i_get s k) (fun r => Ok (enc_get (snd r), sheap (fst r))).
+Theorem gen_Get_refines lg s k : swf s ->
+  Gen.Map_Get (gmap s) k (sheap lg s) = lift (i_get s k) (fun r => Ok (enc_get (snd r), sheap lg (fst r))).
 Proof.
   intros ((C & Hhd & Hpl) & Hl & Hv). unfold Gen.Map_Get, i_get. gmap_cbn. rewrite mapget_encv.
   destruct (alookup k (vals s)) as [x|] eqn:E; [|reflexivity].
@@ -77,6 +77,8 @@ Qed.
 
 Section Exported.
 
+Variable lg : list Z.   (* the log array: untouched by the map code *)
+
 Variable pool_Put : Z -> Z -> M unit.
 Variable pool_Get : option nat -> Z -> M Z.
 Hypothesis Hput : put_spec pool_Put.
@@ -84,18 +86,18 @@ Hypothesis Hget : get_spec pool_Get.
 
 Ltac im_put :=
   match goal with
-  | |- context [bind (pool_Put 0 (ptr ?x)) ?k (gheap ?pl ?H)] =>
-      rewrite (bind_ok (pool_Put 0 (ptr x)) k (gheap pl H) tt _ (Hput pl H x))
+  | |- context [bind (pool_Put 0 (ptr ?x)) ?k (gheap ?lg0 ?pl ?H)] =>
+      rewrite (bind_ok (pool_Put 0 (ptr x)) k (gheap lg0 pl H) tt _ (Hput lg0 pl H x))
   end.
 
 Theorem gen_Remove_refines s k : swf s ->
-  Gen.Map_Remove pool_Put (gmap s) k (sheap s) =
-  lift (i_remove s k) (fun r => Ok (gmap (fst r), sheap (fst r))).
+  Gen.Map_Remove pool_Put (gmap s) k (sheap lg s) =
+  lift (i_remove s k) (fun r => Ok (gmap (fst r), sheap lg (fst r))).
 Proof.
   intros ((C & Hhd & Hpl) & Hl & Hv). unfold Gen.Map_Remove, i_remove. gmap_cbn. rewrite mapget_encv.
   destruct (alookup k (vals s)) as [x|] eqn:E; [|reflexivity].
   pose proof (alookup_in _ _ _ _ Hv E) as Hx. cbv beta iota zeta.
-  pose proof (gen_delete_refines (pool s) (heap_of s) x C Hx) as Ed. call_with Ed.
+  pose proof (gen_delete_refines lg (pool s) (heap_of s) x C Hx) as Ed. call_with Ed.
   destruct (n_delete (heap_of s) x) as [[h2 nh]| |] eqn:Edm; cbn [lift IMapBase.bind fst snd]; try reflexivity.
   destruct (n_delete_pres _ _ _ _ C Hx Edm) as [[C2 S2] Inh]. pose proof (proj1 S2) as L2.
   assert (Hx2 : (x < length h2)%nat) by (rewrite L2; exact Hx).
@@ -124,17 +126,17 @@ Qed.
 
 (* [~ In (last s) (pool s)]: the trailing element is on the list, not in the pool *)
 Theorem gen_Add_refines s k v c : swf s -> ~ In (last s) (pool s) ->
-  Gen.Map_Add (pool_Get c) (gmap s) k v (sheap s) =
-  lift (i_add s k v c) (fun r => Ok ((gmap (fst r), enc_err (snd r)), sheap (fst r))).
+  Gen.Map_Add (pool_Get c) (gmap s) k v (sheap lg s) =
+  lift (i_add s k v c) (fun r => Ok ((gmap (fst r), enc_err (snd r)), sheap lg (fst r))).
 Proof.
   intros ((C & Hhd & Hpl) & Hl & Hv) Hlp. unfold Gen.Map_Add, i_add. gmap_cbn. rewrite mapget_encv.
   destruct (alookup k (vals s)) as [x|] eqn:E; [reflexivity|]. cbv beta iota zeta.
-  pose proof (Hget c (pool s) (heap_of s)) as Eg.
+  pose proof (Hget c lg (pool s) (heap_of s)) as Eg.
   destruct (pool_get (heap_of s) (pool s) c) as [[new h1] pl1] eqn:Ep.
   destruct (pool_get_pres _ _ _ _ _ _ C Hpl Ep) as (C1 & Hn & Hle & Hpl1 & Hold).
   assert (Hnl : new <> last s) by (destruct Hold as [Hi| ->]; [intros ->; exact (Hlp Hi)|lia]).
   call_with Eg. cbv beta iota zeta.
-  pose proof (gen_putVal_refines pl1 h1 (last s) k v new C1 ltac:(lia) Hn Hnl) as Ev. call_with Ev.
+  pose proof (gen_putVal_refines lg pl1 h1 (last s) k v new C1 ltac:(lia) Hn Hnl) as Ev. call_with Ev.
   destruct (n_putval h1 (last s) k v new) as [[h2 r]| |] eqn:Evm; cbn [lift IMapBase.bind fst snd]; try reflexivity.
   destruct (n_putval_pres h1 (last s) k v new h2 r C1 ltac:(lia) Hn Evm) as ([C2 S2] & -> & Hprev). pose proof (proj1 S2) as L2.
   assert (Hn2 : (new < length h2)%nat) by (rewrite L2; exact Hn).
@@ -146,8 +148,8 @@ Proof.
 Qed.
 
 Theorem gen_Iterator_refines s name B : swf s -> refs_in B (heap_of s) -> B <= 2 ^ 62 ->
-  Gen.Map_Iterator (gmap s) (sheap s) =
-  lift (i_iterator s name) (fun r => Ok (Gen.mk_mapIterator (ptr (head s)), sheap (fst r))).
+  Gen.Map_Iterator (gmap s) (sheap lg s) =
+  lift (i_iterator s name) (fun r => Ok (Gen.mk_mapIterator (ptr (head s)), sheap lg (fst r))).
 Proof.
   rewrite two62. intros ((C & Hhd & Hpl) & Hl & Hv) R HB. pose proof (R _ Hhd) as Rh.
   unfold Gen.Map_Iterator, i_iterator. gmap_cbn. im_run0.
@@ -157,11 +159,11 @@ Qed.
 (* the iterator methods, on the walking state of the model *)
 Theorem gen_Close_refines vs lst mh hd pl p B :
   cwf (mh, hd, pl) -> (p < length mh)%nat -> refs_in B mh -> B <= 2 ^ 62 ->
-  Gen.mapIterator_Close pool_Put (gm vs hd lst) (Gen.mk_mapIterator (ptr p)) (gheap pl mh) =
+  Gen.mapIterator_Close pool_Put (gm vs hd lst) (Gen.mk_mapIterator (ptr p)) (gheap lg pl mh) =
   lift (i_release (mh, hd, pl) p)
-       (fun c' => Ok ((gm vs (snd (fst c')) lst, Gen.mk_mapIterator 0, ENil), gheap (snd c') (fst (fst c')))).
+       (fun c' => Ok ((gm vs (snd (fst c')) lst, Gen.mk_mapIterator 0, ENil), gheap lg (snd c') (fst (fst c')))).
 Proof.
-  intros W Hp R HB. pose proof (gen_release_refines pool_Put Hput vs lst mh hd pl p B W Hp R HB) as Er.
+  intros W Hp R HB. pose proof (gen_release_refines lg pool_Put Hput vs lst mh hd pl p B W Hp R HB) as Er.
   unfold Gen.mapIterator_Close. gmap_cbn. call_with Er.
   destruct (i_release (mh, hd, pl) p) as [[[h2 hd2] pl2]| |]; reflexivity.
 Qed.
@@ -171,7 +173,7 @@ Definition hn_rel (vs : gomap) (lst : Z) (r : res (core * nat))
   match r with
   | IMapBase.Ok (c', p') =>
       o = Ok ((gm vs (snd (fst c')) lst, Gen.mk_mapIterator (ptr p'),
-               negb (nstate_eqb (n_st (nd (fst (fst c')) p')) StLast)), gheap (snd c') (fst (fst c')))
+               negb (nstate_eqb (n_st (nd (fst (fst c')) p')) StLast)), gheap lg (snd c') (fst (fst c')))
   | IMapBase.Panic => o = GoPanic
   | IMapBase.NoFuel => True
   end.
@@ -190,10 +192,10 @@ Qed.
 Theorem gen_HasNext_refines vs lst mh hd pl p lo hi :
   cwf (mh, hd, pl) -> (p < length mh)%nat -> rng2 lo hi p mh -> - 2 ^ 62 <= lo -> hi <= 2 ^ 62 ->
   hn_rel vs lst (i_getvalue (mh, hd, pl) p)
-    (Gen.mapIterator_HasNext pool_Put (gm vs hd lst) (Gen.mk_mapIterator (ptr p)) (gheap pl mh)).
+    (Gen.mapIterator_HasNext pool_Put (gm vs hd lst) (Gen.mk_mapIterator (ptr p)) (gheap lg pl mh)).
 Proof.
   intros W Hp R Hlo Hhi.
-  pose proof (gen_getValue_refines pool_Put Hput vs lst mh hd pl p lo hi W Hp R Hlo Hhi) as G.
+  pose proof (gen_getValue_refines lg pool_Put Hput vs lst mh hd pl p lo hi W Hp R Hlo Hhi) as G.
   pose proof (i_getvalue_pres mh hd pl p lo hi) as P.
   unfold Gen.mapIterator_HasNext. gmap_cbn.
   destruct (i_getvalue (mh, hd, pl) p) as [[[[h2 hd2] pl2] p2]| |]; cbn [wk_rel hn_rel fst snd] in *; [| |exact I].
@@ -212,7 +214,7 @@ Definition nxt_rel (vs : gomap) (lst : Z) (c : core) (p : nat)
       | IMapBase.Ok (c2, p2) =>
           o = Ok ((gm vs (snd (fst c2)) lst, Gen.mk_mapIterator (ptr p2),
                    Gen.mk_MapEntry (n_key (nd (fst (fst c1)) p1)) (n_val (nd (fst (fst c1)) p1)),
-                   negb (nstate_eqb (n_st (nd (fst (fst c1)) p1)) StLast)), gheap (snd c2) (fst (fst c2)))
+                   negb (nstate_eqb (n_st (nd (fst (fst c1)) p1)) StLast)), gheap lg (snd c2) (fst (fst c2)))
       | IMapBase.Panic => o = GoPanic
       | IMapBase.NoFuel => True
       end
@@ -223,16 +225,16 @@ Definition nxt_rel (vs : gomap) (lst : Z) (c : core) (p : nat)
 Theorem gen_Next_refines vs lst mh hd pl p lo hi :
   cwf (mh, hd, pl) -> (p < length mh)%nat -> rng2 lo hi p mh -> - 2 ^ 62 <= lo -> hi <= 2 ^ 62 ->
   nxt_rel vs lst (mh, hd, pl) p
-    (Gen.mapIterator_Next pool_Put (gm vs hd lst) (Gen.mk_mapIterator (ptr p)) (gheap pl mh)).
+    (Gen.mapIterator_Next pool_Put (gm vs hd lst) (Gen.mk_mapIterator (ptr p)) (gheap lg pl mh)).
 Proof.
   intros W Hp R Hlo Hhi.
-  pose proof (gen_getValue_refines pool_Put Hput vs lst mh hd pl p lo hi W Hp R Hlo Hhi) as G.
+  pose proof (gen_getValue_refines lg pool_Put Hput vs lst mh hd pl p lo hi W Hp R Hlo Hhi) as G.
   pose proof (i_getvalue_pres mh hd pl p lo hi) as P.
   unfold Gen.mapIterator_Next, nxt_rel. gmap_cbn.
   destruct (i_getvalue (mh, hd, pl) p) as [[[[h1 hd1] pl1] p1]| |]; cbn [wk_rel fst snd] in *; [| |exact I].
   - destruct (P _ _ W Hp R eq_refl) as (W1 & L1 & Hp1 & R1). cbn [fst] in L1, R1.
     assert (Hp1' : (p1 < length h1)%nat) by (rewrite L1; exact Hp1).
-    pose proof (gen_next_refines pool_Put Hput vs lst h1 hd1 pl1 p1 lo hi W1 Hp1' R1 Hlo Hhi) as N.
+    pose proof (gen_next_refines lg pool_Put Hput vs lst h1 hd1 pl1 p1 lo hi W1 Hp1' R1 Hlo Hhi) as N.
     call_with G. gmap_cbn. im_run0.
     destruct (i_next (fuel_of h1) (h1, hd1, pl1) p1) as [[[[h2 hd2] pl2] p2]| |]; cbn [wk_rel fst snd] in *; [| |exact I].
     + call_with N. gmap_cbn. destruct (n_st (nd h1 p1)); reflexivity.
@@ -256,8 +258,8 @@ Definition d1_gen (c : option nat) : M (Z * bool) :=
   ret (k, ok).
 
 Example gen_ex_d1 :
-  (match d1_gen None (gheap [] []) with Ok (r, _) => Some r | _ => None end) = Some (2, true) /\
-  (match d1_gen (Some 0%nat) (gheap [] []) with Ok (r, _) => Some r | _ => None end) = Some (2, true).
+  (match d1_gen None (gheap [] [] []) with Ok (r, _) => Some r | _ => None end) = Some (2, true) /\
+  (match d1_gen (Some 0%nat) (gheap [] [] []) with Ok (r, _) => Some r | _ => None end) = Some (2, true).
 Proof. vm_compute. split; reflexivity. Qed.
 
 Print Assumptions gen_Len_refines.
